@@ -712,6 +712,66 @@ def check_fresh(terms, timeout_ms, want_model=False):
     return r, m
 
 
+N_CVC5 = {'asked': 0, 'decided': 0}
+
+
+def check_cvc5(terms, timeout_ms, want_model=False):
+    """Third opinion for a query that both z3 strategies answered `unknown`: the same assertions (SMT-LIB2 text printed by z3,
+    so it is the identical encoding) are handed to cvc5 (python wheel installed by `vcheck setup`).  Returns (sat|unsat|unknown,
+    model dict or None).  Any cvc5 error, a missing module or an unparsable construct counts as `unknown`, never as a verdict."""
+    N_CVC5['asked'] += 1
+    try:
+        import cvc5
+    except Exception:
+        return unknown, None
+    s = _z3.Solver()
+    seen, extra = set(), []
+    for t in terms:
+        var_bounds_constraints(t, seen, extra)
+    s.add(extra)
+    s.add([to_z3(t) for t in terms])
+    text = s.to_smt2()
+    try:
+        slv = cvc5.Solver()
+        slv.setOption('tlimit-per', str(int(timeout_ms)))
+        slv.setOption('produce-models', 'true')
+        slv.setLogic('ALL')
+        parser = cvc5.InputParser(slv)
+        parser.setStringInput(cvc5.InputLanguage.SMT_LIB_2_6, text.replace('(check-sat)', ''), 'q')
+        sm = parser.getSymbolManager()
+        while True:
+            cmd = parser.nextCommand()
+            if cmd.isNull():
+                break
+            out = cmd.invoke(slv, sm)
+            if '(error' in str(out):
+                return unknown, None
+        r = slv.checkSat()
+        if r.isUnsat():
+            N_CVC5['decided'] += 1
+            return unsat, None
+        if not r.isSat():
+            return unknown, None
+        N_CVC5['decided'] += 1
+        m = None
+        if want_model:
+            m = {}
+            for t in sm.getDeclaredTerms():
+                v = slv.getValue(t)
+                name = str(t)
+                if name.startswith('|') and name.endswith('|'):
+                    name = name[1:-1]
+                if v.isIntegerValue():
+                    m[name] = int(v.getIntegerValue())
+                elif v.isBooleanValue():
+                    m[name] = bool(v.getBooleanValue())
+                elif v.isBitVectorValue():
+                    m[name] = int(v.getBitVectorValue(10))
+        return sat, m
+    except Exception:
+        return unknown, None
+
+
 def evaluate(t, model):
     """Evaluate a term under a (partial) model: dict var-name -> python value; missing vars get an in-bounds default."""
     op, a = t.op, t.args
